@@ -63,6 +63,15 @@ func (p *Prog) verifyFunction(fn *ssa.Function, con *Contract) (res *FnResult) {
 			if k == "entry" || e.hooksFired[k] {
 				continue
 			}
+			allForbid := true
+			for _, h := range con.AtCalls[k] {
+				if !h.NoGuard {
+					allForbid = false
+				}
+			}
+			if allForbid {
+				continue
+			}
 			var props []string
 			for _, h := range con.AtCalls[k] {
 				props = append(props, clauseProps(h.C, con.Props)...)
